@@ -12,10 +12,11 @@ import (
 // ---------- callee naming ----------
 
 // calleeName returns the canonical name of the function called by a call instruction:
-//   static function/method:  "strings.HasPrefix", "(*@/pkg/ipam/floatingip.crdIpam).createFloatingIP"
-//   interface method:        "(@/pkg/ipam/floatingip.IPAM).Release"
-//   closure:                 name of the anonymous function
-//   otherwise ""             (dynamic call through a func value)
+//
+//	static function/method:  "strings.HasPrefix", "(*@/pkg/ipam/floatingip.crdIpam).createFloatingIP"
+//	interface method:        "(@/pkg/ipam/floatingip.IPAM).Release"
+//	closure:                 name of the anonymous function
+//	otherwise ""             (dynamic call through a func value)
 func calleeName(call ssa.CallInstruction) string {
 	cc := call.Common()
 	if cc.IsInvoke() {
